@@ -39,8 +39,19 @@ class Scripted:
         return int(c)
 
 
-def branch_state(seed, L, real):
-    """the state of a forced-branch case, reproducible from (seed, L, real)"""
+def branch_state(seed, L, real, looked=False):
+    """the state of a forced-branch case, reproducible from (seed, L, real, looked)"""
+    if looked:
+        # history on one state object: it has been sampled in every basis (and measured nowhere), then a one-site unitary was applied to
+        # its first tensor in place — the object now represents ANOTHER state (still normalised, centre still at site 0)
+        mps = branch_state(seed, L, real)
+        lr = np.random.default_rng(seed + 1)
+        for b in ("Z", "X", "Y"):
+            mps.measure_single_shot(b, rng=lr)
+        z = lr.normal(size=(2, 2)) + 1j * lr.normal(size=(2, 2))
+        u, _ = np.linalg.qr(z)
+        mps.tensors[0] = np.einsum("ab,bcd->acd", u, np.asarray(mps.tensors[0], dtype=complex))
+        return mps
     from drivers.C11 import random_mps
 
     rng = np.random.default_rng(seed)
@@ -65,7 +76,10 @@ def correspond(ctx):
         L = int(ctx.rng.integers(1, 5))
         seed = int(ctx.rng.integers(0, 2**31))
         real = bool(k % 3 == 1)
-        mps = branch_state(seed, L, real)
+        looked = bool(k % 4 == 2)
+        mps = branch_state(seed, L, real, looked)
+        if looked:
+            ctx.count("states_sampled_before_and_changed_since")
         if real:
             ctx.count("real_dtype_states" if not any(np.iscomplexobj(t) for t in mps.tensors) else "real_valued_states_stored_complex")
         v = dense.mps_dense(mps)
@@ -96,9 +110,9 @@ def correspond(ctx):
                     if res != {key: 1} or not abs(pr2 - pr) <= 1e-12:
                         ctx.violation("one-shot", f"measure_shots(1, basis='{basis}') with the outcome string {list(bits)} forced returns {res} with chain probability "
                                       f"{pr2:.10f}; measure_single_shot('{basis}') gives key {key} with probability {pr:.10f} (Born {float(born[idx]):.10f})",
-                                      {"oracle": "one-shot", "seed": seed, "L": L, "basis": basis, "bits": list(bits), "real": real})
+                                      {"oracle": "one-shot", "seed": seed, "L": L, "basis": basis, "bits": list(bits), "real": real, "looked": looked})
                 exprs.append(f"encode {g_list([str(b) + '%nat' for b in bits])}")
-                cases.append(dict(seed=seed, L=L, basis=basis, bits=list(bits), bond=max(t.shape[2] for t in mps.tensors), real=real))
+                cases.append(dict(seed=seed, L=L, basis=basis, bits=list(bits), bond=max(t.shape[2] for t in mps.tensors), real=real, looked=looked))
     wide_correspondence(ctx)
     vals = common.coq_eval_sharded(HEADER, exprs, tag="c12")
     for c, (key, pr, born, defects), m in zip(cases, impl, vals):
@@ -315,7 +329,7 @@ def search(ctx):
 
 
 def one_shot_oracle(rp):
-    mps = branch_state(rp["seed"], rp["L"], rp["real"])
+    mps = branch_state(rp["seed"], rp["L"], rp["real"], rp.get("looked", False))
     bits, basis = rp["bits"], rp["basis"]
     sr = Scripted(bits)
     key = mps.measure_single_shot(basis, rng=sr)
@@ -358,7 +372,7 @@ def replay(ctx, data):
     if rp.get("oracle") == "branch":
         from drivers.C11 import random_mps
 
-        mps = branch_state(rp["seed"], rp["L"], rp.get("real", False))
+        mps = branch_state(rp["seed"], rp["L"], rp.get("real", False), rp.get("looked", False))
         v = dense.mps_dense(mps)
         sr = Scripted(rp["bits"])
         mps.measure_single_shot(rp["basis"], rng=sr)
